@@ -281,6 +281,17 @@ theorem decode0_sim (h : Hdr) (b : RBuf) {d : List Nat} {e : Nat} (hd : b.data =
     · sim_read_pure
     · sim_pure
 
+/-- the checked `as_slice()` of the final `trace!` cannot fail: the cursor is in its invariant after `decode0` -/
+theorem decode0Traced_eq (h : Hdr) (b : RBuf) (hb : b.Inv) : decode0Traced h b = decode0 h b := by
+  have hr := SimR.refinesCur hb (decode0_sim h b rfl rfl hb)
+  unfold decode0Traced
+  cases hx : decode0 h b with
+  | error e => rfl
+  | ok p =>
+    obtain ⟨h2, b2⟩ := p
+    rw [hx] at hr
+    simp only [bind, Except.bind, RBuf.asSlice_eq b2 hr.2, pure, Except.pure]
+
 end ProtoHdr
 
 /-! ## status report -/
